@@ -51,12 +51,19 @@ func checkC20(c *Ctx, r *Report) {
 	c20R3(c, r)
 	c20R4(c, r)
 	c20R5(c, r)
+	r.rule("C20.R1.selector-mask", 2, "isDuplicate selects the union member to compare under the same mask as the codecs")
+	selectorMaskRule(c, r, "C20.R1.selector-mask")
+	c20APL(c, r)
 }
 
 // c20R5: sort.Slice(x, less): the less closure indexes x and nothing else with its two index parameters
 // (a closure indexing another slice leaves x unsorted: the SVCB parameter comparison would depend on the order).
 func c20R5(c *Ctx, r *Report) {
 	r.rule("C20.R5.sort-own-slice", 3, "the less function of every sort.Slice(x, ...) compares elements of x itself")
+	sortOwnSlice(c, r, "C20.R5.sort-own-slice", func(string) bool { return true })
+}
+
+func sortOwnSlice(c *Ctx, r *Report, rule string, want func(fn string) bool) {
 	n := 0
 	var names []string
 	for name := range c.decls {
@@ -65,7 +72,7 @@ func c20R5(c *Ctx, r *Report) {
 	sort.Strings(names)
 	for _, name := range names {
 		fd := c.decls[name]
-		if fd.Body == nil {
+		if fd.Body == nil || !want(name) {
 			continue
 		}
 		ast.Inspect(fd.Body, func(nd ast.Node) bool {
@@ -119,7 +126,7 @@ func c20R5(c *Ctx, r *Report) {
 			if indexed == 0 {
 				problems = append(problems, "the less function does not index the slice with its parameters")
 			}
-			r.check(len(problems) == 0, "C20.R5.sort-own-slice", construct, c.pos(call.Pos()), "less indexes the sorted slice", "%s", strings.Join(problems, "; "))
+			r.check(len(problems) == 0, rule, construct, c.pos(call.Pos()), "less indexes the sorted slice", "%s", strings.Join(problems, "; "))
 			return true
 		})
 	}
@@ -202,10 +209,13 @@ func c20R2(c *Ctx, r *Report) {
 }
 
 // c20Fold checks labels.go equal(): same fold on both sides.
-func c20Fold(c *Ctx, r *Report) {
+func c20Fold(c *Ctx, r *Report) { foldRule(c, r, "C20.R2.fold") }
+
+// foldRule checks labels.go equal(): same fold on both sides. Shared by C20.R2.fold, C10.R1.name-eq and C18.R1.name-eq.
+func foldRule(c *Ctx, r *Report, rule string) {
 	fd := c.decl("equal")
 	if fd == nil {
-		r.cerr("C20.R2.fold", "equal", "function not found")
+		r.cerr(rule, "equal", "function not found")
 		return
 	}
 	r.fn("equal")
@@ -326,9 +336,9 @@ func c20Fold(c *Ctx, r *Report) {
 		problems = append(problems, "no per-octet inequality test leading to return false")
 	}
 	if len(problems) == 0 {
-		r.ok("C20.R2.fold", "equal", c.pos(fd.Pos()), "both sides folded A-Z |= 0x20")
+		r.ok(rule, "equal", c.pos(fd.Pos()), "both sides folded A-Z |= 0x20")
 	} else {
-		r.fail("C20.R2.fold", "equal", c.pos(fd.Pos()), "%s", strings.Join(problems, "; "))
+		r.fail(rule, "equal", c.pos(fd.Pos()), "%s", strings.Join(problems, "; "))
 	}
 }
 
@@ -597,4 +607,78 @@ func isLoopCounter(v ssa.Value) bool {
 		}
 	}
 	return false
+}
+
+// c20APL: APLPrefix.equals (the element comparator of APL.isDuplicate) compares every component of a prefix:
+// the negation flag, the address, and the mask in a way that tells the families apart. net.IP.Equal alone
+// identifies an IPv4 address with its IPv4-mapped IPv6 form, so the mask comparison must see the mask's
+// length in octets (bytes.Equal on the masks, or both results of IPMask.Size()).
+func c20APL(c *Ctx, r *Report) {
+	r.rule("C20.R1.apl-equals", 1, "APLPrefix.equals compares negation, address and the whole mask (family included)")
+	fn := c.ssaFunc("APLPrefix.equals")
+	if fn == nil {
+		r.cerr("C20.R1.apl-equals", "APLPrefix.equals", "function not found")
+		return
+	}
+	r.fn("APLPrefix.equals")
+	a, b := fn.Params[0], fn.Params[1]
+	both := func(x, y ssa.Value, field string) bool {
+		fa, fb := fieldPathOf(isValue(a), field), fieldPathOf(isValue(b), field)
+		sx, sy := sliceOf(x), sliceOf(y)
+		return (anyIn(sx, fa) && anyIn(sy, fb)) || (anyIn(sx, fb) && anyIn(sy, fa))
+	}
+	neg, ip, mask := false, false, false
+	var sizeCalls []*ssa.Call
+	allInstrs(fn, func(in ssa.Instruction) {
+		switch t := in.(type) {
+		case *ssa.BinOp:
+			if (t.Op == token.EQL || t.Op == token.NEQ) && both(t.X, t.Y, "Negation") {
+				neg = true
+			}
+		case *ssa.Call:
+			switch calleeNameSSA(&t.Call) {
+			case "(net.IP).Equal":
+				if both(t.Call.Args[0], t.Call.Args[1], "Network.IP") {
+					ip = true
+				}
+			case "bytes.Equal":
+				_, s0 := t.Call.Args[0].(*ssa.Slice)
+				_, s1 := t.Call.Args[1].(*ssa.Slice)
+				if both(t.Call.Args[0], t.Call.Args[1], "Network.Mask") && !s0 && !s1 {
+					mask = true
+				}
+			case "(net.IPMask).Size":
+				sizeCalls = append(sizeCalls, t)
+			}
+		}
+	})
+	if !mask && len(sizeCalls) == 2 {
+		// both results (ones, bits) of both Size() calls must be compared
+		used := func(call *ssa.Call, idx int) bool {
+			for _, ref := range *call.Referrers() {
+				if e, ok := ref.(*ssa.Extract); ok && e.Index == idx {
+					for _, u := range *e.Referrers() {
+						if bo, ok := u.(*ssa.BinOp); ok && (bo.Op == token.EQL || bo.Op == token.NEQ) {
+							return true
+						}
+					}
+				}
+			}
+			return false
+		}
+		if used(sizeCalls[0], 0) && used(sizeCalls[0], 1) && used(sizeCalls[1], 0) && used(sizeCalls[1], 1) {
+			mask = true
+		}
+	}
+	var problems []string
+	if !neg {
+		problems = append(problems, "the negation flags of the two prefixes are not compared")
+	}
+	if !ip {
+		problems = append(problems, "the addresses of the two prefixes are not compared through net.IP.Equal")
+	}
+	if !mask {
+		problems = append(problems, "the masks are not compared as whole masks (bytes.Equal, or prefix length and address-family width): net.IP.Equal identifies 192.0.2.0 with ::ffff:192.0.2.0, so 1:192.0.2.0/24 and 2:::ffff:192.0.2.0/24 - different RDATA - would be reported as duplicates")
+	}
+	r.check(len(problems) == 0, "C20.R1.apl-equals", "APLPrefix.equals", c.pos(fn.Pos()), "negation, address, whole mask", "%s", strings.Join(problems, "; "))
 }
